@@ -733,8 +733,10 @@ class BinaryOp(Expr):
             Operator.SUB: lambda a, b: limit(a - b),
             Operator.MUL: lambda a, b: limit(a * b),
             Operator.DIV: lambda a, b: limit(a / b),
-            Operator.MOD: lambda a, b: limit(a % b),
-            Operator.INTDIV: lambda a, b: limit(a // b),
+            Operator.MOD: lambda a, b: limit(
+                (abs(a) % abs(b)) * (-1 if a < 0 else 1)),
+            Operator.INTDIV: lambda a, b: limit(
+                (abs(a) // abs(b)) * (-1 if (a < 0) != (b < 0) else 1)),
             Operator.EXP: lambda a, b: limit(a ** b),
         }[self.op](left, right)
 
